@@ -95,5 +95,37 @@ def run (regs : Nat → List Nat) (σ : Nat → List Byte) : List Op → Option 
   | [] => some σ
   | op :: ops => (step regs σ op).bind (fun σ => run regs σ ops)
 
+/-! ### specification of the extended operations (token list, String operands) -/
+
+/-- reference: the pieces between separator chars (always at least one piece) -/
+def splitRef (seps : List Nat) : List Nat → List (List Nat)
+  | [] => [[]]
+  | x :: t =>
+    if seps.contains x then [] :: splitRef seps t
+    else
+      match splitRef seps t with
+      | tok :: rest => (x :: tok) :: rest
+      | [] => [[x]]
+
+/-- what `split` delivers: all pieces, or the non-empty ones when `skipEmpty` -/
+def splitOut (skipEmpty : Bool) (pieces : List (List Nat)) : List (List Byte) :=
+  ((if skipEmpty then pieces.filter (fun t => !t.isEmpty) else pieces).map (·.map some))
+
+structure XState where
+  σ : Nat → List Byte
+  toks : List (List Byte)
+
+def xstep (regs : Nat → List Nat) (x : XState) : XOp → Option XState
+  | .base op => (step regs x.σ op).map (fun σ => { x with σ := σ })
+  | .split v seps skip => (allSome (x.σ v)).bind fun c =>
+      if 0 ∉ c then some { x with toks := splitOut skip (splitRef seps c) } else none
+  | .joinT v sep => some { x with σ := upd x.σ v (joinL sep x.toks) }
+  | .appendL v src => some { x with σ := upd x.σ v (x.σ v ++ src.map some) }
+  | .prependL v src => some { x with σ := upd x.σ v (src.map some ++ x.σ v) }
+
+def xrun (regs : Nat → List Nat) (x : XState) : List XOp → Option XState
+  | [] => some x
+  | op :: ops => (xstep regs x op).bind (fun x => xrun regs x ops)
+
 end Spec
 end Nstd.Str
